@@ -9,7 +9,7 @@ ID = "C01"
 RULE = ("case = session of 8-40 top-level forms evaluated one after another in one context: well-typed forms, hostile calls (procedures of "
         "(scheme base/char/write/read/cxr/lazy/inexact/complex) and data-taking VM primitives applied -- directly, through apply with a spread list of up to 8 elements, as first-class values, through map -- to 0-4 arguments drawn from a type x "
         "boundary-value lattice: -1 0 len-1 len len+1 fixnum extremes +-1 bignums ratios nan/inf non-scalar char codes cursors of other "
-        "strings cyclic/improper lists immutable literals closed ports records continuations), deep nesting (reader, equal?, write), tokens at the reader's buffer sizes (string / |symbol| literals with runs of hex escapes, long numbers and identifiers), and a "
+        "strings cyclic/improper lists immutable literals closed ports records continuations), deep nesting (reader, equal?, write), argument lists longer than the stack spread by apply inside recursion, generic arithmetic over every pair of number representations, tokens at the reader's buffer sizes (string / |symbol| literals with runs of hex escapes, long numbers and identifiers), and a "
         "fixed probe program after every few forms. World: (a) the session text is delivered to read+eval through a simulated stream "
         "(cookie / descriptor / custom port) with chunk tapes, truncated or corrupted (flip / drop / insert / duplicate) at a tape-chosen "
         "byte; (b) the interrupt flag is raised at a tape-chosen tick (any instruction boundary, also during macro expansion); (c) small "
